@@ -371,7 +371,7 @@ Section Main.
       + rewrite print_two. reflexivity.
     - assert (tn = any_type_name pb m) as ->.
       { unfold any_type_name, tn. rewrite (field_bytes_s _ _ _ Htn). reflexivity. }
-      constructor.
+      constructor. intros s -> E3. rewrite E3 in Hdata. injection Hdata as ->. apply parse_print. exact Hwd.
   Qed.
 
   Definition P_value (f : nat) : Prop := forall t v txt,
@@ -654,8 +654,9 @@ Section Corollaries.
   Proof. intros H. inversion H; subst; [left; reflexivity|right; eauto 10]. Qed.
 
   Lemma spec_any_framing pb v j : wire_value fmt_float env (FAny pb) v j ->
-    exists m jv, v = VMsg m /\ j = JObj [(txt_type, JStr (any_type_name pb m)); (txt_value, jv)].
-  Proof. intros H. inversion H; subst. eauto. Qed.
+    exists m jv, v = VMsg m /\ j = JObj [(txt_type, JStr (any_type_name pb m)); (txt_value, jv)] /\
+                 (forall s, pb = false -> msg_get 3 m = Some (VBytes s) -> strict_parse s = Some jv).
+  Proof. intros H. inversion H; subst. eauto 6. Qed.
 
   (* members: exactly the present properties, in schema order, under their JSON names *)
   Lemma spec_members_names ps m ms : wire_members fmt_float env ps m ms ->
